@@ -134,6 +134,15 @@ def run(s):
         from vf import lean
         s.oblige("C02.lemmas.FiniteSums(lean)", lambda: lean.check_file("lemmas/FiniteSums.lean"), ["lemmas/FiniteSums.lean (sum rules: linearity, congruence, combination, "
                                                                                                      "positivity, permutation, weight scaling)"])
+    if not s.__dict__.get("_p"):          # not when this check itself runs as a sub-session of another property
+        # the strain fractions e_i, e_j of the gap are made by FullThermalElasticModulus.get_axial_strains (normalised logarithmic derivatives of the fitted axis lengths, sign
+        # included: an axis that lengthens under compression has a negative fraction) -- C05's obligations on that glue, registered here as well
+        from props import C05, C15
+        sub = core.SubSession(s, lambda n: n.replace("C05.", "C02.strain_fractions."), lambda n: n.startswith("C05.axial_strains_"))
+        sub.__dict__["glue_only"] = True
+        C05.run(sub)
+        # both tensors are DELIVERED through the writer rules (which quantity a keyword writes): C15's registry and writer-path obligations, registered here as well
+        C15.run(core.SubSession(s, lambda n: n.replace("C15.", "C02.delivery."), lambda n: n in ("C15.registry", "C15.writer_paths")))
     s.min_obligations = 11
 
 
